@@ -14,10 +14,10 @@ LEVEL_NOTE = ("The internal-from-external Snell search is a 100-iteration Nelder
               "setThetaExternal op (taken from the real Beam::calc_internal_theta_from_external), the 1e-5° read-back is checked on the "
               "real code for all 11 crystals × orientations × polarisations × azimuths × θe ∈ [0°,80°] (residual: convergence of the "
               "simplex). Principal indices are inputs of snell_ext / waist_pos (layered correspondence). Model fidelity is checked, not proved.")
-OPS = {"fmod", "norm_angle", "norm_angle_signed", "dir_from_polar", "beam_seq", "snell_ext", "waist_pos", "wavevector",
+OPS = {"fmod", "norm_angle", "norm_angle_signed", "dir_from_polar", "beam_seq", "snell_ext", "snell_int", "waist_pos", "wavevector",
        "c2k", "k2c", "wl2freq", "freq2wl", "vac_wl2freq", "freq2vac_wl", "freq2wn", "wn2freq", "fwhm2sigma", "fwhm2waist", "waist2fwhm"}
 TOL = {"fmod": ("exact",), "norm_angle": ("exact",), "norm_angle_signed": ("exact",), "dir_from_polar": ("ulp", 4),
-       "beam_seq": ("ulp", 4), "snell_ext": ("ulp", 16), "waist_pos": ("ulp", 64), "wavevector": ("ulp", 4)}
+       "beam_seq": ("ulp", 4), "snell_ext": ("ulp", 16), "snell_int": ("rel", 1e-9, 1e-12), "waist_pos": ("ulp", 64), "wavevector": ("ulp", 4)}
 DEFAULT_TOL = ("ulp", 2)
 RULE = ("family beam: fmod / normalize_angle(_signed) on special values (±0, kπ, 2π±1ulp, ±400°, ±1e-20, subnormals, f64::MAX) and "
         "seeded random finite arguments; direction_from_polar; random histories of 1–50 setter calls (set_phi, set_theta_internal, "
